@@ -212,3 +212,55 @@ def model_eval(exprs: Sequence[str], timeout: int = 120, imports: Sequence[str] 
         return None
     finally:
         shutil.rmtree(d, ignore_errors=True)
+
+
+def theorems_in_background(ck: Ck, props_file: str):
+    """`ck.theorems` (one coqc run printing the assumptions of every theorem: single-threaded, 10-15 s of CPU for the lia-heavy
+    proofs) started in a thread, so that it overlaps with the instance obligations and the correspondences of the main thread."""
+    ex = ThreadPoolExecutor(1)
+    return ex, ex.submit(ck.theorems, props_file)
+
+
+def _reorder(ck: Ck, names_in_order: Sequence[str], after_prefixes: tuple[str, ...] | None) -> None:
+    """Move the obligations with the given names (in that order) to one place: directly after the last entry whose name starts with
+    one of `after_prefixes`, or (None) to where the first of them stands now."""
+    order = {n: i for i, n in enumerate(names_in_order)}
+    mine = sorted((o for o in ck.obligations if o['name'] in order), key=lambda o: order[o['name']])
+    if not mine:
+        return
+    if after_prefixes is None:
+        first = next(k for k, o in enumerate(ck.obligations) if o['name'] in order)
+        i = sum(1 for o in ck.obligations[:first] if o['name'] not in order)
+    rest = [o for o in ck.obligations if o['name'] not in order]
+    if after_prefixes is not None:
+        i = max((k + 1 for k, o in enumerate(rest) if o['name'].startswith(after_prefixes)), default=len(rest))
+    ck.obligations[:] = rest[:i] + mine + rest[i:]
+
+
+def join_theorems(ck: Ck, started) -> None:
+    """Wait for `theorems_in_background`; then (no other thread appends any more) put its obligations where a sequential call would
+    have put them (directly after the build / hygiene entries) and the entries of `instance_obligations_parallel` in the order of
+    its groups, so that the evidence file does not depend on timing."""
+    ex, fut = started
+    fut.result()
+    ex.shutdown()
+    for names in getattr(ck, '_parallel_instance_orders', []):
+        _reorder(ck, names, None)
+    _reorder(ck, [o['name'] for o in ck.obligations if o['name'].startswith(('theorem:', 'assumptions:'))], ('build:', 'hygiene:'))
+
+
+def instance_obligations_parallel(ck: Ck, groups: Sequence[tuple]) -> dict[str, bool]:
+    """Several `ck.instance_obligations(imports, obs, name)` groups at once (each group is two sequential coqc runs that mostly
+    wait for the library to load).  The order of the `instance:` entries is restored by `join_theorems` (which must be called
+    later; nothing is reordered while another thread may still append).  Group names must differ (they name the scratch
+    directories)."""
+    assert len({g[2] for g in groups}) == len(groups)
+    with ThreadPoolExecutor(len(groups)) as ex:
+        parts = list(ex.map(lambda g: ck.instance_obligations(g[0], g[1], name=g[2]), groups))
+    if not hasattr(ck, '_parallel_instance_orders'):
+        ck._parallel_instance_orders = []       # type: ignore[attr-defined]
+    ck._parallel_instance_orders.append([f'instance:{n}' for g in groups for n in g[1]])     # type: ignore[attr-defined]
+    out: dict[str, bool] = {}
+    for p_ in parts:
+        out.update(p_)
+    return out
